@@ -37,7 +37,7 @@ OnlyIndep == {TRUE}
 C4Targets == {"routed", "unrouted"}
 C4RegClasses == {"Exception", "HTTPError", "HTTPNotFound", "AppA", "AppB", "AppC"}
 C4RegClassesQ == {"Exception", "HTTPNotFound", "AppA", "AppB"}
-C4RaiseQ == {"HTTPNotFound", "StSub", "AppA", "AppB", "AppD", "AppX", "Exception", "BadStr"}
+C4RaiseQ == {"HTTPNotFound", "StSub", "AppA", "AppB", "AppD", "AppX", "BadStr"}
 C4RenderQ == {"AppD", "HTTPNotFound"}
 (* session instances (several requests on one application, registrations in between) *)
 SRegClasses == {"AppA", "AppB", "HTTPNotFound"}
@@ -54,7 +54,7 @@ GRegClasses2 == {"Exception", "AppA", "AppB", "AppC", "AppD"}
 GRaise      == {"AppD"}
 GRaise2     == {"AppD", "AppB"}
 NoStack     == {<<>>}
-C4RegBehs    == {"set", "setbad", "http", "draftst", "other"}
+C4RegBehs    == {"set", "http", "draftst", "other"}
 C4RegBehsAll == {"set", "setbad", "noop", "http", "status", "draftst", "drafterr", "other"}
 C4Raise  == {"HTTPError", "HTTPNotFound", "HTTPStatus", "StSub", "AppA", "AppB", "AppC", "AppD", "AppX", "Exception",
              "BadStr", "NonStr", "BadRepr"}    \* the last three cannot be formatted (str() / repr() of them raises)
